@@ -190,8 +190,12 @@ type Rec struct {
 	items   [][]byte
 	// PostCall runs after every logged call (used to log what happened to caller memory)
 	PostCall func()
-	NoBatch  bool
-	probes   []int
+	// BetweenPasses runs between two passes over one sequence value
+	BetweenPasses func()
+	// AfterCreate runs when a sequence method has returned its sequence, before it is ranged over
+	AfterCreate func()
+	NoBatch     bool
+	probes      []int
 }
 
 func NewRec(d TreeDriver, t int, tr *Trace, seed int64) *Rec {
@@ -498,7 +502,8 @@ func (r *Rec) seqArgs(name string, a, b, n int) {
 	tr := r.Tr
 	switch name {
 	case "TopK", "BottomK":
-		tr.fInt("n", n)
+		tr.fInt("n", logN(n))
+		tr.fInt("nx", n)
 	case "Range":
 		tr.fInt("a", a)
 		tr.fInt("b", b)
@@ -508,6 +513,15 @@ func (r *Rec) seqArgs(name string, a, b, n int) {
 	}
 }
 
+// logN: what the trace says for a TopK/BottomK argument: huge values (selectors -1, -2) are logged as 2^30-1,
+// which is larger than any size and fits the model checker's integers; "nx" keeps the selector for re-execution.
+func logN(n int) int {
+	if n < 0 {
+		return 1<<30 - 1
+	}
+	return n
+}
+
 // Seq runs one complete pass over a sequence method and logs it.
 func (r *Rec) Seq(name string, a, b, n int) {
 	if r.Dead {
@@ -515,7 +529,11 @@ func (r *Rec) Seq(name string, a, b, n int) {
 	}
 	var ks, vs []int
 	pan := guard(func() {
-		for k, v := range r.D.Seq(name, a, b, n) {
+		s := r.D.Seq(name, a, b, n)
+		if r.AfterCreate != nil {
+			r.AfterCreate() // the call has returned its sequence: the caller may reuse its buffers now
+		}
+		for k, v := range s {
 			ks = append(ks, k)
 			vs = append(vs, v)
 		}
@@ -539,7 +557,20 @@ func (r *Rec) IterCheck(name string, a, b, n int, stops []int) {
 	lstops := make([]int, len(stops))
 	pan := guard(func() {
 		s := r.D.Seq(name, a, b, n)
+		if r.AfterCreate != nil {
+			r.AfterCreate()
+		}
 		for i, stop := range stops {
+			if i > 0 {
+				// read-only calls between the passes: the tree is unchanged, the sequence value must not care
+				nk := len(r.D.Universe())
+				r.D.Search(1 + r.R.Intn(nk))
+				r.D.Search(1 + r.R.Intn(nk))
+				r.D.Min()
+				if r.BetweenPasses != nil {
+					r.BetweenPasses()
+				}
+			}
 			var ks, vs []int
 			stopped := false
 			s(func(k, v int) bool {
@@ -567,7 +598,8 @@ func (r *Rec) IterCheck(name string, a, b, n int, stops []int) {
 	tr := r.Tr
 	tr.start("Iter")
 	tr.fStr("seq", name)
-	tr.fInt("n", n)
+	tr.fInt("n", logN(n))
+	tr.fInt("nx", n)
 	tr.fInt("a", a)
 	tr.fInt("b", b)
 	tr.fInt("p", a)
@@ -647,8 +679,8 @@ func (r *Rec) RunBattery(bt Battery) {
 		sz = d.Size()
 	}
 	if bt.TopK {
-		for _, k := range []int{0, 1, sz - 1, sz, sz + 1, 1000000} {
-			if k < 0 {
+		for _, k := range []int{0, 1, sz - 1, sz, sz + 1, 1000000, -1, -2} {
+			if k < -2 || (k < 0 && sz-1 == k) {
 				continue
 			}
 			r.Seq("TopK", 0, 0, k)
@@ -731,6 +763,8 @@ func (r *Rec) randomIterCheck(sz int) {
 	names := []string{"All", "Backward", "TopK", "BottomK"}
 	if d.HasRange() {
 		names = append(names, "Range")
+	} else {
+		names = append(names, "RangeAny")
 	}
 	if d.HasPrefix() {
 		names = append(names, "Prefix")
@@ -740,6 +774,11 @@ func (r *Rec) randomIterCheck(sz int) {
 	switch name {
 	case "TopK", "BottomK":
 		k = r.R.Intn(sz + 2)
+		if r.R.Intn(8) == 0 {
+			k = -1 - r.R.Intn(2)
+		}
+	case "RangeAny":
+		a, b = 1+r.R.Intn(n), 1+r.R.Intn(n)
 	case "Range":
 		a, b = 1+r.R.Intn(n), 1+r.R.Intn(n)
 		if r.R.Intn(3) == 0 {
